@@ -39,12 +39,13 @@ func Present(mode, text, iflag string) (args []string, stdin string, files map[s
 		files["in_trees.nw"] = strings.ReplaceAll(text, "\n", "\r\n")
 		return []string{iflag, "in_trees.nw"}, "", files, mode
 	case "file":
-		files["in_trees.nw"] = text
+		files["in_trees.nw"] = text // laid out when it is written (WriteIn / AuxLayout)
 		return []string{iflag, "in_trees.nw"}, "", files, mode
 	case "gz":
 		// a file of several lines is written as two gzip members (what `cat a.gz b.gz`, bgzip or
 		// pigz -i produce): a legal .gz file that must be read to its end
 		var b bytes.Buffer
+		text = TreesLayout(text)
 		parts := []string{text}
 		if lines := strings.SplitAfter(text, "\n"); len(lines) > 2 {
 			h := len(lines) / 2
@@ -58,13 +59,13 @@ func Present(mode, text, iflag string) (args []string, stdin string, files map[s
 		files["in_trees.nw.gz"] = b.String()
 		return []string{iflag, "in_trees.nw.gz"}, "", files, mode
 	}
-	return nil, text, files, "stdin"
+	return nil, TreesLayout(text), files, "stdin"
 }
 
 // ToNexus writes a text of Newick trees (one per line) as a Nexus document; ok is false when the
 // text cannot be represented (a line that is not a tree, comments, no tree).
 func ToNexus(text string, translate bool) (string, bool) {
-	if strings.TrimSpace(text) == "" || strings.ContainsAny(text, "[]") {
+	if strings.TrimSpace(text) == "" || strings.ContainsAny(text, "[]'") {
 		return "", false
 	}
 	var ms []*ref.Node
